@@ -13,409 +13,26 @@
           (tDetach / tThird / tOver, see Model/Join.lean) has been opened
     Inv3  no post-exchange access to a destroyed fiber (same hypothesis)
 -/
-import LibfiberVerif.Model.Join
+import LibfiberVerif.Proof.JoinL0
+import LibfiberVerif.Proof.JoinL1
+import LibfiberVerif.Proof.JoinL2a
+import LibfiberVerif.Proof.JoinL2b
 
 set_option linter.unusedSimpArgs false
 set_option linter.unusedVariables false
 
 namespace LibfiberVerif.Join
 
-/-! ### predicates on program counters -/
-
-/-- the fiber is past the exchange (or the DETACHED short-cut) of its own completion -/
-@[simp, grind] def finX : Pc → Bool
-  | .fPark0 | .fParking | .fParked | .fWoken | .fTake | .fGot _ | .fGotRes _ _ | .fGave _ | .fMark | .fDone => true
-  | _ => false
-
-/-- the fiber has stored its result -/
-@[simp, grind] def stored : Pc → Bool
-  | .fStored | .fLoaded => true
-  | .fPark0 | .fParking | .fParked | .fWoken | .fTake | .fGot _ | .fGotRes _ _ | .fGave _ | .fMark | .fDone => true
-  | _ => false
-
-/-- the finished fiber is on its way into its own mailbox, or in it -/
-@[simp, grind] def parkF : Pc → Bool
-  | .fPark0 | .fParking | .fParked => true
-  | _ => false
-
-/-- a joiner on its way into g's mailbox, or in it -/
-@[simp, grind] def joinerPark (c : Pc) (g : Nat) : Bool :=
-  match c with
-  | .jPark0 t | .jParking t | .jParked t => t == g
-  | _ => false
-
-@[simp, grind] def joinerPath (c : Pc) (g : Nat) : Bool :=
-  match c with
-  | .jPark0 t | .jParking t | .jParked t | .jWoken t | .jGotRes t _ => t == g
-  | _ => false
-
-/-- a client that claimed the finished fiber and has not woken it yet -/
-@[simp, grind] def takePh (c : Pc) (g : Nat) : Bool :=
-  match c with
-  | .take0 _ t | .take _ t _ | .wake _ t _ _ => t == g
-  | _ => false
-
-/-- every program point from which a client still acts on g's mailbox / will report SUCCESS -/
-@[simp, grind] def claimPath (c : Pc) (g : Nat) : Bool :=
-  match c with
-  | .jPark0 t | .jParking t | .jParked t | .jWoken t | .jGotRes t _ => t == g
-  | .take0 _ t | .take _ t _ | .wake _ t _ _ => t == g
-  | .retn op t ok _ => t == g && ok && op != .detach
-  | _ => false
-
-/-- a holds p: it took p out of a mailbox and is about to wake it -/
-@[simp, grind] def holds (c : Pc) (p : Nat) : Bool :=
-  match c with
-  | .wake _ _ _ q | .fGot q | .fGotRes q _ | .fGave q => q == p
-  | _ => false
-
-/-- the finishing fiber holds its joiner p -/
-@[simp, grind] def holdsF (c : Pc) (p : Nat) : Bool :=
-  match c with
-  | .fGot q | .fGotRes q _ | .fGave q => q == p
-  | _ => false
-
-@[simp, grind] def holdsFAny : Pc → Bool
-  | .fGot _ | .fGotRes _ _ | .fGave _ => true
-  | _ => false
-
-/-- q is parked in g's mailbox protocol-wise -/
-@[simp, grind] def parkedIn (c : Pc) (q g : Nat) : Bool :=
-  match c with
-  | .jParked t => t == g
-  | .fParked => q == g
-  | _ => false
-
-/-- the finishing fiber is busy delivering to its joiner p -/
-@[simp, grind] def delivering (c : Pc) (p : Nat) : Bool :=
-  match c with
-  | .fTake => true
-  | .fGot q | .fGotRes q _ | .fGave q => q == p
-  | _ => false
-
-@[grind →] theorem jpk_jp {c g} (h : joinerPark c g = true) : joinerPath c g = true := by
-  cases c <;> simp_all
-@[grind →] theorem jp_cp {c g} (h : joinerPath c g = true) : claimPath c g = true := by
-  cases c <;> simp_all
-@[grind →] theorem tp_cp {c g} (h : takePh c g = true) : claimPath c g = true := by
-  cases c <;> simp_all
-@[grind →] theorem hf_h {c p} (h : holdsF c p = true) : holds c p = true := by
-  cases c <;> simp_all
-@[grind →] theorem hf_hfa {c p} (h : holdsF c p = true) : holdsFAny c = true := by
-  cases c <;> simp_all
-@[grind →] theorem parkedIn_inj {c q g g'} (h : parkedIn c q g = true) (h' : parkedIn c q g' = true) : g = g' := by
-  cases c <;> simp_all
-@[grind →] theorem parkedIn_inv {c q g} (h : parkedIn c q g = true) : c = .jParked g ∨ (c = .fParked ∧ q = g) := by
-  cases c <;> simp_all
-@[grind →] theorem holds_inv {c p} (h : holds c p = true) :
-    (∃ op g v, c = .wake op g v p) ∨ c = .fGot p ∨ (∃ v, c = .fGotRes p v) ∨ c = .fGave p := by
-  cases c <;> simp_all
-@[grind →] theorem fx_st {c} (h : finX c = true) : stored c = true := by
-  cases c <;> simp_all
-@[grind →] theorem pf_fx {c} (h : parkF c = true) : finX c = true := by
-  cases c <;> simp_all
-
-/-! ### from `step` to `stepCore` -/
-
-theorem step_some {s : St} {e : Ev} {s' : St} (h : step s e = some s') :
-    ∃ s1, stepCore s e = some s1 ∧
-      s' = { s1 with late := if e.counted ∧ s1.destroyed e.cellOf then upd s1.late e.cellOf (s1.late e.cellOf + 1) else s1.late } := by
-  unfold step at h
-  cases hc : stepCore s e with
-  | none => simp [hc] at h
-  | some s1 => simp [hc] at h; exact ⟨s1, rfl, h.symm⟩
-
-/-- case analysis on the event and on the acting fiber's program counter; leaves one goal per
-    accepted branch of `stepCore`, with the successor state substituted -/
-syntax "step_cases " ident " with " ident : tactic
-macro_rules
-  | `(tactic| step_cases $e with $hc) => `(tactic| (
-      cases $e:ident <;> simp only [stepCore] at $hc:ident
-      all_goals (repeat' split at $hc:ident)
-      all_goals (try (simp at $hc:ident))
-      all_goals (try subst $hc:ident)))
-
-/-! ### layer 0: simple unconditional facts -/
-
-structure Inv0 (s : St) : Prop where
-  dr : ∀ g, s.det g ≤ 3
-  wfj : ∀ g, s.det g = WFJ → finX (s.pc g) = true
-  detx : ∀ g, s.det g = DET → s.detX g = true
-  fret : ∀ g v, s.pc g = .fRet v → s.retval g = some v
-  tl : ∀ a op g, s.pc a = .loaded op g → op ≠ .join → s.det g ≠ NONE
-  cpn : ∀ a g, claimPath (s.pc a) g = true → s.det g ≠ NONE
-  scn : ∀ g, s.succ g ≠ [] → s.det g ≠ NONE
-  fxn : ∀ g, finX (s.pc g) = true → s.det g ≠ NONE
-  dst : ∀ g, s.destroyed g = true → s.pc g = .fDone
-  fj : ∀ p g, joinerPath (s.pc p) g = true → s.first g = some p
-  ff : ∀ g, (parkF (s.pc g) = true ∨ s.pc g = .fWoken) → s.first g = some g
-  tcl : ∀ b g, takePh (s.pc b) g = true → (s.claimed g = true ∨ s.detX g = true)
-  fc : ∀ g, holdsFAny (s.pc g) = true → s.claimed g = true
-
 variable {s s1 : St} {e : Ev}
-
-set_option maxHeartbeats 4000000 in
-theorem inv0_dr (h0 : Inv0 s) (hc : stepCore s e = some s1) : ∀ g, s1.det g ≤ 3 := by
-  cases h0
-  step_cases e with hc
-  all_goals (intros; (try simp only [upd_apply, WFJ, DET, NONE, WTJ, untainted] at *); first | grind | ((repeat' split) <;> grind))
-
-set_option maxHeartbeats 4000000 in
-theorem inv0_wfj (h0 : Inv0 s) (hc : stepCore s e = some s1) : ∀ g, s1.det g = WFJ → finX (s1.pc g) = true := by
-  cases h0
-  step_cases e with hc
-  all_goals (intros; (try simp only [upd_apply, WFJ, DET, NONE, WTJ, untainted] at *); first | grind | ((repeat' split) <;> grind))
-
-set_option maxHeartbeats 4000000 in
-theorem inv0_detx (h0 : Inv0 s) (hc : stepCore s e = some s1) : ∀ g, s1.det g = DET → s1.detX g = true := by
-  cases h0
-  step_cases e with hc
-  all_goals (intros; (try simp only [upd_apply, WFJ, DET, NONE, WTJ, untainted] at *); first | grind | ((repeat' split) <;> grind))
-
-set_option maxHeartbeats 4000000 in
-theorem inv0_fret (h0 : Inv0 s) (hc : stepCore s e = some s1) : ∀ g v, s1.pc g = .fRet v → s1.retval g = some v := by
-  cases h0
-  step_cases e with hc
-  all_goals (intros; (try simp only [upd_apply, WFJ, DET, NONE, WTJ, untainted] at *); first | grind | ((repeat' split) <;> grind))
-
-set_option maxHeartbeats 4000000 in
-theorem inv0_tl (h0 : Inv0 s) (hc : stepCore s e = some s1) : ∀ a op g, s1.pc a = .loaded op g → op ≠ .join → s1.det g ≠ NONE := by
-  cases h0
-  step_cases e with hc
-  all_goals (intros; (try simp only [upd_apply, WFJ, DET, NONE, WTJ, untainted] at *); first | grind | ((repeat' split) <;> grind))
-
-set_option maxHeartbeats 4000000 in
-theorem inv0_cpn (h0 : Inv0 s) (hc : stepCore s e = some s1) : ∀ a g, claimPath (s1.pc a) g = true → s1.det g ≠ NONE := by
-  cases h0
-  step_cases e with hc
-  all_goals (intros; (try simp only [upd_apply, WFJ, DET, NONE, WTJ, untainted] at *); first | grind | ((repeat' split) <;> grind))
-
-set_option maxHeartbeats 4000000 in
-theorem inv0_scn (h0 : Inv0 s) (hc : stepCore s e = some s1) : ∀ g, s1.succ g ≠ [] → s1.det g ≠ NONE := by
-  cases h0
-  step_cases e with hc
-  all_goals (intros; (try simp only [upd_apply, WFJ, DET, NONE, WTJ, untainted] at *); first | grind | ((repeat' split) <;> grind))
-
-set_option maxHeartbeats 4000000 in
-theorem inv0_fxn (h0 : Inv0 s) (hc : stepCore s e = some s1) : ∀ g, finX (s1.pc g) = true → s1.det g ≠ NONE := by
-  cases h0
-  step_cases e with hc
-  all_goals (intros; (try simp only [upd_apply, WFJ, DET, NONE, WTJ, untainted] at *); first | grind | ((repeat' split) <;> grind))
-
-set_option maxHeartbeats 4000000 in
-theorem inv0_dst (h0 : Inv0 s) (hc : stepCore s e = some s1) : ∀ g, s1.destroyed g = true → s1.pc g = .fDone := by
-  cases h0
-  step_cases e with hc
-  all_goals (intros; (try simp only [upd_apply, WFJ, DET, NONE, WTJ, untainted] at *); first | grind | ((repeat' split) <;> grind))
-
-set_option maxHeartbeats 4000000 in
-theorem inv0_fj (h0 : Inv0 s) (hc : stepCore s e = some s1) : ∀ p g, joinerPath (s1.pc p) g = true → s1.first g = some p := by
-  cases h0
-  step_cases e with hc
-  all_goals (intros; (try simp only [upd_apply, WFJ, DET, NONE, WTJ, untainted] at *); first | grind | ((repeat' split) <;> grind))
-
-set_option maxHeartbeats 4000000 in
-theorem inv0_ff (h0 : Inv0 s) (hc : stepCore s e = some s1) : ∀ g, (parkF (s1.pc g) = true ∨ s1.pc g = .fWoken) → s1.first g = some g := by
-  cases h0
-  step_cases e with hc
-  all_goals (intros; (try simp only [upd_apply, WFJ, DET, NONE, WTJ, untainted] at *); first | grind | ((repeat' split) <;> grind))
-
-set_option maxHeartbeats 4000000 in
-theorem inv0_tcl (h0 : Inv0 s) (hc : stepCore s e = some s1) : ∀ b g, takePh (s1.pc b) g = true → (s1.claimed g = true ∨ s1.detX g = true) := by
-  cases h0
-  step_cases e with hc
-  all_goals (intros; (try simp only [upd_apply, WFJ, DET, NONE, WTJ, untainted] at *); first | grind | ((repeat' split) <;> grind))
-
-set_option maxHeartbeats 4000000 in
-theorem inv0_fc (h0 : Inv0 s) (hc : stepCore s e = some s1) : ∀ g, holdsFAny (s1.pc g) = true → s1.claimed g = true := by
-  cases h0
-  step_cases e with hc
-  all_goals (intros; (try simp only [upd_apply, WFJ, DET, NONE, WTJ, untainted] at *); first | grind | ((repeat' split) <;> grind))
 
 theorem inv0_core (h0 : Inv0 s) (hc : stepCore s e = some s1) : Inv0 s1 :=
   ⟨inv0_dr h0 hc, inv0_wfj h0 hc, inv0_detx h0 hc, inv0_fret h0 hc, inv0_tl h0 hc, inv0_cpn h0 hc, inv0_scn h0 hc, inv0_fxn h0 hc, inv0_dst h0 hc, inv0_fj h0 hc, inv0_ff h0 hc, inv0_tcl h0 hc, inv0_fc h0 hc⟩
 
-/-! ### layer 1: mailbox discipline (holder uniqueness) and the values that travel -/
-
-structure Inv1 (s : St) : Prop where
-  mb : ∀ g, s.ji g ≠ 0 → parkedIn (s.pc (s.ji g)) (s.ji g) g = true ∧ s.holder (s.ji g) = none
-  hw : ∀ a op g v p, s.pc a = .wake op g v p → s.holder p = some a ∧ parkedIn (s.pc p) p g = true
-  hf : (∀ a p, s.pc a = .fGot p → s.holder p = some a ∧ s.pc p = .jParked a) ∧ (∀ a p v, s.pc a = .fGotRes p v → s.holder p = some a ∧ s.pc p = .jParked a) ∧ (∀ a p, s.pc a = .fGave p → s.holder p = some a ∧ s.pc p = .jParked a)
-  hh : ∀ p, s.holder p = none ∨ ∃ a, s.holder p = some a ∧ holds (s.pc a) p = true
-  st : ∀ g, stored (s.pc g) = true → s.retval g = some (s.res g)
-  t0 : ∀ a op g, s.pc a = .take0 op g → finX (s.pc g) = true
-  tv : ∀ a op g v, s.pc a = .take op g v → op ≠ .detach → s.retval g = some v
-  wv : ∀ a op g v p, s.pc a = .wake op g v p → op ≠ .detach → s.retval g = some v
-  gr : ∀ g p v, s.pc g = .fGotRes p v → s.retval g = some v
-  gv : ∀ g p, s.pc g = .fGave p → s.retval g = some (s.res p)
-  dj : ∀ g, (s.pc g = .fWoken ∨ s.pc g = .fMark ∨ s.pc g = .fDone) → (s.claimed g = true ∨ s.detX g = true)
-
-set_option maxHeartbeats 4000000 in
-theorem inv1_mb (mb : ∀ g, s.ji g ≠ 0 → parkedIn (s.pc (s.ji g)) (s.ji g) g = true ∧ s.holder (s.ji g) = none) (hh : ∀ p, s.holder p = none ∨ ∃ a, s.holder p = some a ∧ holds (s.pc a) p = true) (hw : ∀ a op g v p, s.pc a = .wake op g v p → s.holder p = some a ∧ parkedIn (s.pc p) p g = true) (hf : (∀ a p, s.pc a = .fGot p → s.holder p = some a ∧ s.pc p = .jParked a) ∧ (∀ a p v, s.pc a = .fGotRes p v → s.holder p = some a ∧ s.pc p = .jParked a) ∧ (∀ a p, s.pc a = .fGave p → s.holder p = some a ∧ s.pc p = .jParked a)) (hc : stepCore s e = some s1) : ∀ g, s1.ji g ≠ 0 → parkedIn (s1.pc (s1.ji g)) (s1.ji g) g = true ∧ s1.holder (s1.ji g) = none := by
-  step_cases e with hc
-  all_goals (intros; (try simp only [upd_apply, WFJ, DET, NONE, WTJ, untainted] at *); first | grind | ((repeat' split) <;> grind))
-
-set_option maxHeartbeats 4000000 in
-theorem inv1_hw (hw : ∀ a op g v p, s.pc a = .wake op g v p → s.holder p = some a ∧ parkedIn (s.pc p) p g = true) (mb : ∀ g, s.ji g ≠ 0 → parkedIn (s.pc (s.ji g)) (s.ji g) g = true ∧ s.holder (s.ji g) = none) (hf : (∀ a p, s.pc a = .fGot p → s.holder p = some a ∧ s.pc p = .jParked a) ∧ (∀ a p v, s.pc a = .fGotRes p v → s.holder p = some a ∧ s.pc p = .jParked a) ∧ (∀ a p, s.pc a = .fGave p → s.holder p = some a ∧ s.pc p = .jParked a)) (hh : ∀ p, s.holder p = none ∨ ∃ a, s.holder p = some a ∧ holds (s.pc a) p = true) (hc : stepCore s e = some s1) : ∀ a op g v p, s1.pc a = .wake op g v p → s1.holder p = some a ∧ parkedIn (s1.pc p) p g = true := by
-  step_cases e with hc
-  all_goals (intros; (try simp only [upd_apply, WFJ, DET, NONE, WTJ, untainted] at *); first | grind | ((repeat' split) <;> grind))
-
-set_option maxHeartbeats 4000000 in
-theorem inv1_hf (hf : (∀ a p, s.pc a = .fGot p → s.holder p = some a ∧ s.pc p = .jParked a) ∧ (∀ a p v, s.pc a = .fGotRes p v → s.holder p = some a ∧ s.pc p = .jParked a) ∧ (∀ a p, s.pc a = .fGave p → s.holder p = some a ∧ s.pc p = .jParked a)) (mb : ∀ g, s.ji g ≠ 0 → parkedIn (s.pc (s.ji g)) (s.ji g) g = true ∧ s.holder (s.ji g) = none) (hw : ∀ a op g v p, s.pc a = .wake op g v p → s.holder p = some a ∧ parkedIn (s.pc p) p g = true) (hh : ∀ p, s.holder p = none ∨ ∃ a, s.holder p = some a ∧ holds (s.pc a) p = true) (hc : stepCore s e = some s1) : (∀ a p, s1.pc a = .fGot p → s1.holder p = some a ∧ s1.pc p = .jParked a) ∧ (∀ a p v, s1.pc a = .fGotRes p v → s1.holder p = some a ∧ s1.pc p = .jParked a) ∧ (∀ a p, s1.pc a = .fGave p → s1.holder p = some a ∧ s1.pc p = .jParked a) := by
-  step_cases e with hc
-  all_goals (intros; (try simp only [upd_apply, WFJ, DET, NONE, WTJ, untainted] at *); first | grind | ((repeat' split) <;> grind))
-
-set_option maxHeartbeats 4000000 in
-theorem inv1_hh (hh : ∀ p, s.holder p = none ∨ ∃ a, s.holder p = some a ∧ holds (s.pc a) p = true) (hw : ∀ a op g v p, s.pc a = .wake op g v p → s.holder p = some a ∧ parkedIn (s.pc p) p g = true) (hf : (∀ a p, s.pc a = .fGot p → s.holder p = some a ∧ s.pc p = .jParked a) ∧ (∀ a p v, s.pc a = .fGotRes p v → s.holder p = some a ∧ s.pc p = .jParked a) ∧ (∀ a p, s.pc a = .fGave p → s.holder p = some a ∧ s.pc p = .jParked a)) (mb : ∀ g, s.ji g ≠ 0 → parkedIn (s.pc (s.ji g)) (s.ji g) g = true ∧ s.holder (s.ji g) = none) (hc : stepCore s e = some s1) : ∀ p, s1.holder p = none ∨ ∃ a, s1.holder p = some a ∧ holds (s1.pc a) p = true := by
-  step_cases e with hc
-  all_goals (intros; (try simp only [upd_apply, WFJ, DET, NONE, WTJ, untainted] at *); first | grind | ((repeat' split) <;> grind))
-
-set_option maxHeartbeats 4000000 in
-theorem inv1_st (st : ∀ g, stored (s.pc g) = true → s.retval g = some (s.res g)) (fret : ∀ g v, s.pc g = .fRet v → s.retval g = some v) (hf : (∀ a p, s.pc a = .fGot p → s.holder p = some a ∧ s.pc p = .jParked a) ∧ (∀ a p v, s.pc a = .fGotRes p v → s.holder p = some a ∧ s.pc p = .jParked a) ∧ (∀ a p, s.pc a = .fGave p → s.holder p = some a ∧ s.pc p = .jParked a)) (hc : stepCore s e = some s1) : ∀ g, stored (s1.pc g) = true → s1.retval g = some (s1.res g) := by
-  step_cases e with hc
-  all_goals (intros; (try simp only [upd_apply, WFJ, DET, NONE, WTJ, untainted] at *); first | grind | ((repeat' split) <;> grind))
-
-set_option maxHeartbeats 4000000 in
-theorem inv1_t0 (t0 : ∀ a op g, s.pc a = .take0 op g → finX (s.pc g) = true) (wfj : ∀ g, s.det g = WFJ → finX (s.pc g) = true) (hc : stepCore s e = some s1) : ∀ a op g, s1.pc a = .take0 op g → finX (s1.pc g) = true := by
-  step_cases e with hc
-  all_goals (intros; (try simp only [upd_apply, WFJ, DET, NONE, WTJ, untainted] at *); first | grind | ((repeat' split) <;> grind))
-
-set_option maxHeartbeats 4000000 in
-theorem inv1_tv (tv : ∀ a op g v, s.pc a = .take op g v → op ≠ .detach → s.retval g = some v) (st : ∀ g, stored (s.pc g) = true → s.retval g = some (s.res g)) (t0 : ∀ a op g, s.pc a = .take0 op g → finX (s.pc g) = true) (hc : stepCore s e = some s1) : ∀ a op g v, s1.pc a = .take op g v → op ≠ .detach → s1.retval g = some v := by
-  step_cases e with hc
-  all_goals (intros; (try simp only [upd_apply, WFJ, DET, NONE, WTJ, untainted] at *); first | grind | ((repeat' split) <;> grind))
-
-set_option maxHeartbeats 4000000 in
-theorem inv1_wv (wv : ∀ a op g v p, s.pc a = .wake op g v p → op ≠ .detach → s.retval g = some v) (tv : ∀ a op g v, s.pc a = .take op g v → op ≠ .detach → s.retval g = some v) (hc : stepCore s e = some s1) : ∀ a op g v p, s1.pc a = .wake op g v p → op ≠ .detach → s1.retval g = some v := by
-  step_cases e with hc
-  all_goals (intros; (try simp only [upd_apply, WFJ, DET, NONE, WTJ, untainted] at *); first | grind | ((repeat' split) <;> grind))
-
-set_option maxHeartbeats 4000000 in
-theorem inv1_gr (gr : ∀ g p v, s.pc g = .fGotRes p v → s.retval g = some v) (st : ∀ g, stored (s.pc g) = true → s.retval g = some (s.res g)) (hc : stepCore s e = some s1) : ∀ g p v, s1.pc g = .fGotRes p v → s1.retval g = some v := by
-  step_cases e with hc
-  all_goals (intros; (try simp only [upd_apply, WFJ, DET, NONE, WTJ, untainted] at *); first | grind | ((repeat' split) <;> grind))
-
-set_option maxHeartbeats 4000000 in
-theorem inv1_gv (gv : ∀ g p, s.pc g = .fGave p → s.retval g = some (s.res p)) (gr : ∀ g p v, s.pc g = .fGotRes p v → s.retval g = some v) (hf : (∀ a p, s.pc a = .fGot p → s.holder p = some a ∧ s.pc p = .jParked a) ∧ (∀ a p v, s.pc a = .fGotRes p v → s.holder p = some a ∧ s.pc p = .jParked a) ∧ (∀ a p, s.pc a = .fGave p → s.holder p = some a ∧ s.pc p = .jParked a)) (hc : stepCore s e = some s1) : ∀ g p, s1.pc g = .fGave p → s1.retval g = some (s1.res p) := by
-  step_cases e with hc
-  all_goals (intros; (try simp only [upd_apply, WFJ, DET, NONE, WTJ, untainted] at *); first | grind | ((repeat' split) <;> grind))
-
-set_option maxHeartbeats 4000000 in
-theorem inv1_dj (dj : ∀ g, (s.pc g = .fWoken ∨ s.pc g = .fMark ∨ s.pc g = .fDone) → (s.claimed g = true ∨ s.detX g = true)) (detx : ∀ g, s.det g = DET → s.detX g = true) (wfj : ∀ g, s.det g = WFJ → finX (s.pc g) = true) (tcl : ∀ b g, takePh (s.pc b) g = true → (s.claimed g = true ∨ s.detX g = true)) (fc : ∀ g, holdsFAny (s.pc g) = true → s.claimed g = true) (hw : ∀ a op g v p, s.pc a = .wake op g v p → s.holder p = some a ∧ parkedIn (s.pc p) p g = true) (dr : ∀ g, s.det g ≤ 3) (hc : stepCore s e = some s1) : ∀ g, (s1.pc g = .fWoken ∨ s1.pc g = .fMark ∨ s1.pc g = .fDone) → (s1.claimed g = true ∨ s1.detX g = true) := by
-  step_cases e with hc
-  all_goals (intros; (try simp only [upd_apply, WFJ, DET, NONE, WTJ, untainted] at *); first | grind | ((repeat' split) <;> grind))
-
 theorem inv1_core (h0 : Inv0 s) (h1 : Inv1 s) (hc : stepCore s e = some s1) : Inv1 s1 :=
   ⟨inv1_mb h1.mb h1.hh h1.hw h1.hf hc, inv1_hw h1.hw h1.mb h1.hf h1.hh hc, inv1_hf h1.hf h1.mb h1.hw h1.hh hc, inv1_hh h1.hh h1.hw h1.hf h1.mb hc, inv1_st h1.st h0.fret h1.hf hc, inv1_t0 h1.t0 h0.wfj hc, inv1_tv h1.tv h1.st h1.t0 hc, inv1_wv h1.wv h1.tv hc, inv1_gr h1.gr h1.st hc, inv1_gv h1.gv h1.gr h1.hf hc, inv1_dj h1.dj h0.detx h0.wfj h0.tcl h0.fc h1.hw h0.dr hc⟩
 
-/-! ### layer 2: the protocol on targets without an opened window -/
-
-structure Inv2 (s : St) : Prop where
-  k3 : ∀ g a, untainted s g → claimPath (s.pc a) g = true → (s.det g ≠ WFJ ∨ s.finTook g = true)
-  k4 : ∀ g, untainted s g → s.succ g ≠ [] → (s.det g ≠ WFJ ∨ s.finTook g = true)
-  k5 : ∀ g p, untainted s g → joinerPark (s.pc p) g = true → (s.det g = WTJ ∨ (s.det g = WFJ ∧ s.finTook g = true))
-  uq : ∀ g a a', untainted s g → claimPath (s.pc a) g = true → claimPath (s.pc a') g = true → a = a'
-  sq : ∀ g a, untainted s g → s.succ g ≠ [] → claimPath (s.pc a) g = false
-  sl : ∀ g, untainted s g → (s.succ g).length ≤ 1
-  cv1 : ∀ g p, untainted s g → s.pc p = .jWoken g → s.retval g = some (s.res p)
-  cv2 : ∀ g p v, untainted s g → s.pc p = .jGotRes g v → s.retval g = some v
-  cv3 : ∀ g a op v, untainted s g → s.pc a = .retn op g true v → op ≠ .detach → s.retval g = some v
-  sv : ∀ g v, untainted s g → v ∈ s.succ g → s.retval g = some v
-  c1 : ∀ g b, untainted s g → takePh (s.pc b) g = true → parkF (s.pc g) = true
-  c4 : ∀ g, untainted s g → s.det g = WFJ → (s.finTook g = true ∨ parkF (s.pc g) = true)
-  c9 : ∀ g, untainted s g → s.det g = WTJ → finX (s.pc g) = false → (s.first g ≠ none ∧ ∀ p, s.first g = some p → joinerPark (s.pc p) g = true)
-  ii : ∀ g, untainted s g → s.pc g = .fTake → (s.first g ≠ none ∧ ∀ p, s.first g = some p → joinerPark (s.pc p) g = true)
-  iii : ∀ g p, untainted s g → joinerPark (s.pc p) g = true → finX (s.pc g) = true → delivering (s.pc g) p = true
-  iv : ∀ g, untainted s g → parkF (s.pc g) = true → s.det g ≠ WFJ → (s.taker g ≠ none ∧ ∀ b, s.taker g = some b → takePh (s.pc b) g = true)
-  t4 : ∀ g, untainted s g → s.detX g = true → s.det g = DET
-
-set_option maxHeartbeats 4000000 in
-theorem inv2_k3 (k3 : ∀ g a, untainted s g → claimPath (s.pc a) g = true → (s.det g ≠ WFJ ∨ s.finTook g = true)) (cpn : ∀ a g, claimPath (s.pc a) g = true → s.det g ≠ NONE) (dr : ∀ g, s.det g ≤ 3) (wfj : ∀ g, s.det g = WFJ → finX (s.pc g) = true) (hc : stepCore s e = some s1) : ∀ g a, untainted s1 g → claimPath (s1.pc a) g = true → (s1.det g ≠ WFJ ∨ s1.finTook g = true) := by
-  step_cases e with hc
-  all_goals (intros; (try simp only [upd_apply, WFJ, DET, NONE, WTJ, untainted] at *); first | grind | ((repeat' split) <;> grind))
-
-set_option maxHeartbeats 4000000 in
-theorem inv2_k4 (k4 : ∀ g, untainted s g → s.succ g ≠ [] → (s.det g ≠ WFJ ∨ s.finTook g = true)) (k3 : ∀ g a, untainted s g → claimPath (s.pc a) g = true → (s.det g ≠ WFJ ∨ s.finTook g = true)) (scn : ∀ g, s.succ g ≠ [] → s.det g ≠ NONE) (dr : ∀ g, s.det g ≤ 3) (wfj : ∀ g, s.det g = WFJ → finX (s.pc g) = true) (hc : stepCore s e = some s1) : ∀ g, untainted s1 g → s1.succ g ≠ [] → (s1.det g ≠ WFJ ∨ s1.finTook g = true) := by
-  step_cases e with hc
-  all_goals (intros; (try simp only [upd_apply, WFJ, DET, NONE, WTJ, untainted] at *); first | grind | ((repeat' split) <;> grind))
-
-set_option maxHeartbeats 4000000 in
-theorem inv2_k5 (k5 : ∀ g p, untainted s g → joinerPark (s.pc p) g = true → (s.det g = WTJ ∨ (s.det g = WFJ ∧ s.finTook g = true))) (cpn : ∀ a g, claimPath (s.pc a) g = true → s.det g ≠ NONE) (hc : stepCore s e = some s1) : ∀ g p, untainted s1 g → joinerPark (s1.pc p) g = true → (s1.det g = WTJ ∨ (s1.det g = WFJ ∧ s1.finTook g = true)) := by
-  step_cases e with hc
-  all_goals (intros; (try simp only [upd_apply, WFJ, DET, NONE, WTJ, untainted] at *); first | grind | ((repeat' split) <;> grind))
-
-set_option maxHeartbeats 4000000 in
-theorem inv2_uq (uq : ∀ g a a', untainted s g → claimPath (s.pc a) g = true → claimPath (s.pc a') g = true → a = a') (cpn : ∀ a g, claimPath (s.pc a) g = true → s.det g ≠ NONE) (k3 : ∀ g a, untainted s g → claimPath (s.pc a) g = true → (s.det g ≠ WFJ ∨ s.finTook g = true)) (hc : stepCore s e = some s1) : ∀ g a a', untainted s1 g → claimPath (s1.pc a) g = true → claimPath (s1.pc a') g = true → a = a' := by
-  step_cases e with hc
-  all_goals (intros; (try simp only [upd_apply, WFJ, DET, NONE, WTJ, untainted] at *); first | grind | ((repeat' split) <;> grind))
-
-set_option maxHeartbeats 4000000 in
-theorem inv2_sq (sq : ∀ g a, untainted s g → s.succ g ≠ [] → claimPath (s.pc a) g = false) (uq : ∀ g a a', untainted s g → claimPath (s.pc a) g = true → claimPath (s.pc a') g = true → a = a') (scn : ∀ g, s.succ g ≠ [] → s.det g ≠ NONE) (k4 : ∀ g, untainted s g → s.succ g ≠ [] → (s.det g ≠ WFJ ∨ s.finTook g = true)) (hc : stepCore s e = some s1) : ∀ g a, untainted s1 g → s1.succ g ≠ [] → claimPath (s1.pc a) g = false := by
-  step_cases e with hc
-  all_goals (intros; (try simp only [upd_apply, WFJ, DET, NONE, WTJ, untainted] at *); first | grind | ((repeat' split) <;> grind))
-
-set_option maxHeartbeats 4000000 in
-theorem inv2_sl (sl : ∀ g, untainted s g → (s.succ g).length ≤ 1) (sq : ∀ g a, untainted s g → s.succ g ≠ [] → claimPath (s.pc a) g = false) (hc : stepCore s e = some s1) : ∀ g, untainted s1 g → (s1.succ g).length ≤ 1 := by
-  step_cases e with hc
-  all_goals (intros; (try simp only [upd_apply, WFJ, DET, NONE, WTJ, untainted] at *); first | grind | ((repeat' split) <;> grind))
-
-set_option maxHeartbeats 4000000 in
-theorem inv2_cv1 (cv1 : ∀ g p, untainted s g → s.pc p = .jWoken g → s.retval g = some (s.res p)) (gv : ∀ g p, s.pc g = .fGave p → s.retval g = some (s.res p)) (hf : (∀ a p, s.pc a = .fGot p → s.holder p = some a ∧ s.pc p = .jParked a) ∧ (∀ a p v, s.pc a = .fGotRes p v → s.holder p = some a ∧ s.pc p = .jParked a) ∧ (∀ a p, s.pc a = .fGave p → s.holder p = some a ∧ s.pc p = .jParked a)) (hw : ∀ a op g v p, s.pc a = .wake op g v p → s.holder p = some a ∧ parkedIn (s.pc p) p g = true) (uq : ∀ g a a', untainted s g → claimPath (s.pc a) g = true → claimPath (s.pc a') g = true → a = a') (hc : stepCore s e = some s1) : ∀ g p, untainted s1 g → s1.pc p = .jWoken g → s1.retval g = some (s1.res p) := by
-  step_cases e with hc
-  all_goals (intros; (try simp only [upd_apply, WFJ, DET, NONE, WTJ, untainted] at *); first | grind | ((repeat' split) <;> grind))
-
-set_option maxHeartbeats 4000000 in
-theorem inv2_cv2 (cv2 : ∀ g p v, untainted s g → s.pc p = .jGotRes g v → s.retval g = some v) (cv1 : ∀ g p, untainted s g → s.pc p = .jWoken g → s.retval g = some (s.res p)) (hc : stepCore s e = some s1) : ∀ g p v, untainted s1 g → s1.pc p = .jGotRes g v → s1.retval g = some v := by
-  step_cases e with hc
-  all_goals (intros; (try simp only [upd_apply, WFJ, DET, NONE, WTJ, untainted] at *); first | grind | ((repeat' split) <;> grind))
-
-set_option maxHeartbeats 4000000 in
-theorem inv2_cv3 (cv3 : ∀ g a op v, untainted s g → s.pc a = .retn op g true v → op ≠ .detach → s.retval g = some v) (cv2 : ∀ g p v, untainted s g → s.pc p = .jGotRes g v → s.retval g = some v) (wv : ∀ a op g v p, s.pc a = .wake op g v p → op ≠ .detach → s.retval g = some v) (hc : stepCore s e = some s1) : ∀ g a op v, untainted s1 g → s1.pc a = .retn op g true v → op ≠ .detach → s1.retval g = some v := by
-  step_cases e with hc
-  all_goals (intros; (try simp only [upd_apply, WFJ, DET, NONE, WTJ, untainted] at *); first | grind | ((repeat' split) <;> grind))
-
-set_option maxHeartbeats 4000000 in
-theorem inv2_sv (sv : ∀ g v, untainted s g → v ∈ s.succ g → s.retval g = some v) (cv3 : ∀ g a op v, untainted s g → s.pc a = .retn op g true v → op ≠ .detach → s.retval g = some v) (hc : stepCore s e = some s1) : ∀ g v, untainted s1 g → v ∈ s1.succ g → s1.retval g = some v := by
-  step_cases e with hc
-  all_goals (intros; (try simp only [upd_apply, WFJ, DET, NONE, WTJ, untainted] at *); first | grind | ((repeat' split) <;> grind))
-
-set_option maxHeartbeats 4000000 in
-theorem inv2_c1 (c1 : ∀ g b, untainted s g → takePh (s.pc b) g = true → parkF (s.pc g) = true) (c4 : ∀ g, untainted s g → s.det g = WFJ → (s.finTook g = true ∨ parkF (s.pc g) = true)) (uq : ∀ g a a', untainted s g → claimPath (s.pc a) g = true → claimPath (s.pc a') g = true → a = a') (hw : ∀ a op g v p, s.pc a = .wake op g v p → s.holder p = some a ∧ parkedIn (s.pc p) p g = true) (hc : stepCore s e = some s1) : ∀ g b, untainted s1 g → takePh (s1.pc b) g = true → parkF (s1.pc g) = true := by
-  step_cases e with hc
-  all_goals (intros; (try simp only [upd_apply, WFJ, DET, NONE, WTJ, untainted] at *); first | grind | ((repeat' split) <;> grind))
-
-set_option maxHeartbeats 4000000 in
-theorem inv2_c4 (c4 : ∀ g, untainted s g → s.det g = WFJ → (s.finTook g = true ∨ parkF (s.pc g) = true)) (k3 : ∀ g a, untainted s g → claimPath (s.pc a) g = true → (s.det g ≠ WFJ ∨ s.finTook g = true)) (hw : ∀ a op g v p, s.pc a = .wake op g v p → s.holder p = some a ∧ parkedIn (s.pc p) p g = true) (wfj : ∀ g, s.det g = WFJ → finX (s.pc g) = true) (dr : ∀ g, s.det g ≤ 3) (hc : stepCore s e = some s1) : ∀ g, untainted s1 g → s1.det g = WFJ → (s1.finTook g = true ∨ parkF (s1.pc g) = true) := by
-  step_cases e with hc
-  all_goals (intros; (try simp only [upd_apply, WFJ, DET, NONE, WTJ, untainted] at *); first | grind | ((repeat' split) <;> grind))
-
-set_option maxHeartbeats 4000000 in
-theorem inv2_c9 (c9 : ∀ g, untainted s g → s.det g = WTJ → finX (s.pc g) = false → (s.first g ≠ none ∧ ∀ p, s.first g = some p → joinerPark (s.pc p) g = true)) (fj : ∀ p g, joinerPath (s.pc p) g = true → s.first g = some p) (tl : ∀ a op g, s.pc a = .loaded op g → op ≠ .join → s.det g ≠ NONE) (wfj : ∀ g, s.det g = WFJ → finX (s.pc g) = true) (uq : ∀ g a a', untainted s g → claimPath (s.pc a) g = true → claimPath (s.pc a') g = true → a = a') (hw : ∀ a op g v p, s.pc a = .wake op g v p → s.holder p = some a ∧ parkedIn (s.pc p) p g = true) (hf : (∀ a p, s.pc a = .fGot p → s.holder p = some a ∧ s.pc p = .jParked a) ∧ (∀ a p v, s.pc a = .fGotRes p v → s.holder p = some a ∧ s.pc p = .jParked a) ∧ (∀ a p, s.pc a = .fGave p → s.holder p = some a ∧ s.pc p = .jParked a)) (cpn : ∀ a g, claimPath (s.pc a) g = true → s.det g ≠ NONE) (dr : ∀ g, s.det g ≤ 3) (hc : stepCore s e = some s1) : ∀ g, untainted s1 g → s1.det g = WTJ → finX (s1.pc g) = false → (s1.first g ≠ none ∧ ∀ p, s1.first g = some p → joinerPark (s1.pc p) g = true) := by
-  step_cases e with hc
-  all_goals (intros; (try simp only [upd_apply, WFJ, DET, NONE, WTJ, untainted] at *); first | grind | ((repeat' split) <;> grind))
-
-set_option maxHeartbeats 4000000 in
-theorem inv2_ii (ii : ∀ g, untainted s g → s.pc g = .fTake → (s.first g ≠ none ∧ ∀ p, s.first g = some p → joinerPark (s.pc p) g = true)) (c9 : ∀ g, untainted s g → s.det g = WTJ → finX (s.pc g) = false → (s.first g ≠ none ∧ ∀ p, s.first g = some p → joinerPark (s.pc p) g = true)) (uq : ∀ g a a', untainted s g → claimPath (s.pc a) g = true → claimPath (s.pc a') g = true → a = a') (hw : ∀ a op g v p, s.pc a = .wake op g v p → s.holder p = some a ∧ parkedIn (s.pc p) p g = true) (hf : (∀ a p, s.pc a = .fGot p → s.holder p = some a ∧ s.pc p = .jParked a) ∧ (∀ a p v, s.pc a = .fGotRes p v → s.holder p = some a ∧ s.pc p = .jParked a) ∧ (∀ a p, s.pc a = .fGave p → s.holder p = some a ∧ s.pc p = .jParked a)) (hc : stepCore s e = some s1) : ∀ g, untainted s1 g → s1.pc g = .fTake → (s1.first g ≠ none ∧ ∀ p, s1.first g = some p → joinerPark (s1.pc p) g = true) := by
-  step_cases e with hc
-  all_goals (intros; (try simp only [upd_apply, WFJ, DET, NONE, WTJ, untainted] at *); first | grind | ((repeat' split) <;> grind))
-
-set_option maxHeartbeats 4000000 in
-theorem inv2_iii (iii : ∀ g p, untainted s g → joinerPark (s.pc p) g = true → finX (s.pc g) = true → delivering (s.pc g) p = true) (k5 : ∀ g p, untainted s g → joinerPark (s.pc p) g = true → (s.det g = WTJ ∨ (s.det g = WFJ ∧ s.finTook g = true))) (cpn : ∀ a g, claimPath (s.pc a) g = true → s.det g ≠ NONE) (fxn : ∀ g, finX (s.pc g) = true → s.det g ≠ NONE) (wfj : ∀ g, s.det g = WFJ → finX (s.pc g) = true) (mb : ∀ g, s.ji g ≠ 0 → parkedIn (s.pc (s.ji g)) (s.ji g) g = true ∧ s.holder (s.ji g) = none) (uq : ∀ g a a', untainted s g → claimPath (s.pc a) g = true → claimPath (s.pc a') g = true → a = a') (hf : (∀ a p, s.pc a = .fGot p → s.holder p = some a ∧ s.pc p = .jParked a) ∧ (∀ a p v, s.pc a = .fGotRes p v → s.holder p = some a ∧ s.pc p = .jParked a) ∧ (∀ a p, s.pc a = .fGave p → s.holder p = some a ∧ s.pc p = .jParked a)) (hc : stepCore s e = some s1) : ∀ g p, untainted s1 g → joinerPark (s1.pc p) g = true → finX (s1.pc g) = true → delivering (s1.pc g) p = true := by
-  step_cases e with hc
-  all_goals (intros; (try simp only [upd_apply, WFJ, DET, NONE, WTJ, untainted] at *); first | grind | ((repeat' split) <;> grind))
-
-set_option maxHeartbeats 4000000 in
-theorem inv2_iv (iv : ∀ g, untainted s g → parkF (s.pc g) = true → s.det g ≠ WFJ → (s.taker g ≠ none ∧ ∀ b, s.taker g = some b → takePh (s.pc b) g = true)) (hw : ∀ a op g v p, s.pc a = .wake op g v p → s.holder p = some a ∧ parkedIn (s.pc p) p g = true) (uq : ∀ g a a', untainted s g → claimPath (s.pc a) g = true → claimPath (s.pc a') g = true → a = a') (wfj : ∀ g, s.det g = WFJ → finX (s.pc g) = true) (c1 : ∀ g b, untainted s g → takePh (s.pc b) g = true → parkF (s.pc g) = true) (hc : stepCore s e = some s1) : ∀ g, untainted s1 g → parkF (s1.pc g) = true → s1.det g ≠ WFJ → (s1.taker g ≠ none ∧ ∀ b, s1.taker g = some b → takePh (s1.pc b) g = true) := by
-  step_cases e with hc
-  all_goals (intros; (try simp only [upd_apply, WFJ, DET, NONE, WTJ, untainted] at *); first | grind | ((repeat' split) <;> grind))
-
-set_option maxHeartbeats 4000000 in
-theorem inv2_t4 (t4 : ∀ g, untainted s g → s.detX g = true → s.det g = DET) (hc : stepCore s e = some s1) : ∀ g, untainted s1 g → s1.detX g = true → s1.det g = DET := by
-  step_cases e with hc
-  all_goals (intros; (try simp only [upd_apply, WFJ, DET, NONE, WTJ, untainted] at *); first | grind | ((repeat' split) <;> grind))
-
 theorem inv2_core (h0 : Inv0 s) (h1 : Inv1 s) (h2 : Inv2 s) (hc : stepCore s e = some s1) : Inv2 s1 :=
-  ⟨inv2_k3 h2.k3 h0.cpn h0.dr h0.wfj hc, inv2_k4 h2.k4 h2.k3 h0.scn h0.dr h0.wfj hc, inv2_k5 h2.k5 h0.cpn hc, inv2_uq h2.uq h0.cpn h2.k3 hc, inv2_sq h2.sq h2.uq h0.scn h2.k4 hc, inv2_sl h2.sl h2.sq hc, inv2_cv1 h2.cv1 h1.gv h1.hf h1.hw h2.uq hc, inv2_cv2 h2.cv2 h2.cv1 hc, inv2_cv3 h2.cv3 h2.cv2 h1.wv hc, inv2_sv h2.sv h2.cv3 hc, inv2_c1 h2.c1 h2.c4 h2.uq h1.hw hc, inv2_c4 h2.c4 h2.k3 h1.hw h0.wfj h0.dr hc, inv2_c9 h2.c9 h0.fj h0.tl h0.wfj h2.uq h1.hw h1.hf h0.cpn h0.dr hc, inv2_ii h2.ii h2.c9 h2.uq h1.hw h1.hf hc, inv2_iii h2.iii h2.k5 h0.cpn h0.fxn h0.wfj h1.mb h2.uq h1.hf hc, inv2_iv h2.iv h1.hw h2.uq h0.wfj h2.c1 hc, inv2_t4 h2.t4 hc⟩
+  ⟨inv2_k3 h2.k3 h0.cpn h0.dr h0.wfj hc, inv2_k4 h2.k4 h2.k3 h0.scn h0.dr h0.wfj hc, inv2_k5 h2.k5 h0.cpn hc, inv2_uq h2.uq h0.cpn h2.k3 hc, inv2_sq h2.sq h2.uq h0.scn h2.k4 hc, inv2_sl h2.sl h2.sq hc, inv2_cv1 h2.cv1 h1.gv h1.hf h1.hw h2.uq hc, inv2_cv2 h2.cv2 h2.cv1 hc, inv2_cv3 h2.cv3 h2.cv2 h1.wv hc, inv2_sv h2.sv h2.cv3 hc, inv2_c1 h2.c1 h2.c4 h2.uq h1.hw hc, inv2_c4 h2.c4 h2.k3 h1.hw h0.wfj h0.dr hc, inv2_c9 h2.c9 h0.fj h0.tl h0.wfj h2.uq h1.hw h1.hf h0.cpn h0.dr hc, inv2_ii h2.ii h2.c9 h2.uq h1.hw h1.hf hc, inv2_iii h2.iii h2.k5 h0.cpn h0.fxn h0.wfj h1.mb h2.uq h1.hf hc, inv2_iv h2.iv h1.hw h2.uq h0.wfj h2.c1 hc, inv2_t4 h2.t4 hc, inv2_dx1 h2.dx1 h2.dx2 h0.scn h2.k4 h2.t4 h0.detx h0.dr hc, inv2_dx2 h2.dx2 h0.cpn h2.k3 h2.t4 h0.detx h0.dr hc⟩
 
 /-! ### layer 3: no post-exchange access to a destroyed fiber -/
 
